@@ -496,6 +496,61 @@ theorem canonical_shape {d₁ d₂ : Dict K V} (h₁ : Inv hash d₁) (h₂ : In
 /-- without collision buckets "the same tree" is plain equality -/
 theorem similar_refl_example : Similar (Dict.leaf 7 1 "a") (Dict.leaf 7 1 "a") := Similar.leaf
 
+/-! ### insertion order does not matter; `values` -/
+
+omit [DecidableEq K] in
+theorem nodup_keys_functional {l : List (K × V)} (hn : (l.map (·.1)).Nodup) {k : K} {v v' : V}
+    (h1 : (k, v) ∈ l) (h2 : (k, v') ∈ l) : v = v' := by
+  induction l with
+  | nil => simp at h1
+  | cons e t ih =>
+    obtain ⟨a, b⟩ := e
+    simp only [List.map_cons, List.nodup_cons, List.mem_map, Prod.exists, exists_and_right,
+      exists_eq_right, not_exists] at hn
+    simp only [List.mem_cons, Prod.mk.injEq] at h1 h2
+    rcases h1 with ⟨rfl, rfl⟩ | h1 <;> rcases h2 with ⟨h2a, rfl⟩ | h2
+    · rfl
+    · exact absurd h2 (hn.1 _)
+    · subst h2a; exact absurd h1 (hn.1 _)
+    · exact ih hn.2 h1 h2
+
+/-- `from` of a duplicate-free list denotes the list itself … -/
+theorem from_nodup_spec (hb : ∀ k, hash k < 2 ^ 32) {fuel : Nat} {pairs : List (K × V)}
+    (hn : (pairs.map (·.1)).Nodup) {d : Dict K V} (hf : Api.from hash fuel pairs = some d) (k : K)
+    (v : V) : toMap d k = some v ↔ (k, v) ∈ pairs := by
+  obtain ⟨_, w⟩ := from_spec hb hf
+  rw [w, putAll_lookup]
+  simp only [Option.or_none]
+  have hn' : (pairs.reverse.map (·.1)).Nodup := by
+    rw [List.map_reverse]; exact (List.reverse_perm _).nodup_iff.mpr hn
+  rw [lookup_eq_some_iff (fun _ _ h1 h2 => nodup_keys_functional hn' h1 h2), List.mem_reverse]
+
+/-- … so building a dict from the same bindings in ANY order gives the same tree (up to the order
+of entries inside collision buckets): the shape is independent of the insertion order. -/
+theorem from_perm (hb : ∀ k, hash k < 2 ^ 32) {fuel : Nat} {ps qs : List (K × V)} (hp : ps.Perm qs)
+    (hn : (ps.map (·.1)).Nodup) {d₁ d₂ : Dict K V} (h₁ : Api.from hash fuel ps = some d₁)
+    (h₂ : Api.from hash fuel qs = some d₂) : Similar d₁ d₂ := by
+  have hn₂ : (qs.map (·.1)).Nodup := (hp.map _).nodup_iff.mp hn
+  apply canonical_shape (from_spec hb h₁).1 (from_spec hb h₂).1
+  intro k
+  apply Option.ext
+  intro v
+  rw [from_nodup_spec hb hn h₁, from_nodup_spec hb hn₂ h₂, hp.mem_iff]
+
+omit [DecidableEq K] in
+/-- `values` is, as a multiset, the values of the contents -/
+theorem values_perm (d : Dict K V) : (Api.values d).Perm ((toList d).map (·.2)) := by
+  rw [values_eq]; exact (entries_perm d).map _
+
+/-- `values` lists exactly the stored values -/
+theorem values_spec {d : Dict K V} (h : Inv hash d) (v : V) :
+    v ∈ Api.values d ↔ ∃ k, toMap d k = some v := by
+  rw [values_eq, List.mem_map]
+  obtain ⟨_, m⟩ := entries_spec h
+  constructor
+  · rintro ⟨⟨a, b⟩, he, rfl⟩; exact ⟨a, (m a b).mp he⟩
+  · rintro ⟨k, hk⟩; exact ⟨(k, v), (m k v).mpr hk, rfl⟩
+
 /-! ### the shipped instance: keys are binaries or `Str[binary]`, the hash is FNV-1a 32 -/
 
 /-- `Str[b]` and `b` are different keys with the same hash: every byte string yields a full 32-bit
@@ -634,5 +689,15 @@ example : runHistory constHash 8 (Api.new : Dict Nat String)
     some (Dict.collision 7 [(1, "c"), (3, "d")]) := by
   simp [runHistory, Cmd.run, Api.put, Api.remove, Api.new, put, remove, splitPair, constHash,
     bucketPut, bucketRemove, revcat]
+
+-- `from_perm` on colliding keys: the two insertion orders give buckets in different order — Similar
+example : ∃ d₁ d₂, Api.from constHash 8 [(1, "a"), (2, "b")] = some d₁ ∧
+    Api.from constHash 8 [(2, "b"), (1, "a")] = some d₂ ∧ Similar d₁ d₂ ∧ d₁ ≠ d₂ := by
+  have e1 : Api.from constHash 8 [(1, "a"), (2, "b")] = some (Dict.collision 7 [(1, "a"), (2, "b")]) := by
+    simp [Api.from, fromList, put, constHash, bucketPut, revcat, splitPair]
+  have e2 : Api.from constHash 8 [(2, "b"), (1, "a")] = some (Dict.collision 7 [(2, "b"), (1, "a")]) := by
+    simp [Api.from, fromList, put, constHash, bucketPut, revcat, splitPair]
+  exact ⟨_, _, e1, e2,
+    from_perm constHash_lt (List.Perm.swap _ _ _) (by simp) e1 e2, by simp⟩
 
 end C19
